@@ -11,12 +11,13 @@
     stage's own partial state.
 
   Helpers: AcnProofs/Lemmas/StochasticSatisfied.lean, AcnProofs/Lemmas/EventCoreGMLast.lean,
-  AcnProofs/Lemmas/SimStochasticAbort.lean.
+  AcnProofs/Lemmas/SimStochasticAbort.lean, AcnProofs/Lemmas/SimStochasticAbortLedger.lean.
 -/
 import AcnProofs.C19
 import AcnProofs.Lemmas.StochasticSatisfied
 import AcnProofs.Lemmas.EventCoreGMLast
 import AcnProofs.Lemmas.SimStochasticAbort
+import AcnProofs.Lemmas.SimStochasticAbortLedger
 
 set_option linter.unusedSectionVars false
 
@@ -171,6 +172,81 @@ theorem end_to_end_sim_abort (cfg : Sim.Cfg K) (hq : ValidQ cfg.core)
 
 end sim
 
+/-! ### the energy ledger at an abort (C02's invariant where `end_to_end_sim_energy` is silent) -/
+
+section simabortenergy
+variable {K : Type} [Field K] [LinearOrder K] [IsStrictOrderedRing K] [HasExp K]
+
+open Acn.EventCore Acn.Ledger in
+/-- ENERGY LEDGER WHEN `Simulator.run` RAISES.  Over any linear ordered field, for every configuration
+    as in `end_to_end_sim`, every choice stream, every scheduler: if the run of `n` iterations raises
+    `e`, then in the state `g` it stops in (`LedgerQ`: `occLog.length = iteration`, every EV's delivered
+    energy = Σ of `charging_rates · V/1000 · period/60` over the periods `< iteration` and the stations
+    where it sat = its battery's gain, vacant ⇒ rate 0, future columns 0, `peak` = running maximum —
+    the conclusion of `end_to_end_sim_energy`)
+      * (A) the scheduler stage raised and the ledger of the completed periods is EXACT at the abort; or
+      * (B) the apply stage raised: the ledger was exact in the state `gB` (same iteration, same
+        network) in which the apply stage of the failing period began, and the numeric state at the
+        abort is that stage's own partial state (`Sim.applyStage`) on top of it. -/
+theorem end_to_end_sim_abort_energy (cfg : Sim.Cfg K) (hq : ValidQ cfg.core)
+    (hst : (cfg.stations.map (·.id)).Nodup) (early : Bool) (cs : Nat → Nat)
+    (sched : Sim.View K → Except EventCore.Err (Sim.Schedule K)) (n : Nat) (g : CoreG (SimSt.St K))
+    (e : EventCore.Err)
+    (hrun : SimSt.run cs cfg sched n (SimSt.init cfg early) = (g, some e)) :
+    (RaisedBy (SimSt.schedS cfg sched) e ∧
+      LedgerQ cfg g.core.iter g.net.2.rates g.net.2.peak g.net.2.evs g.net.2.occLog) ∨
+    (∃ gB : CoreG (SimSt.St K), gB.core.iter = g.core.iter ∧ gB.net.1 = g.net.1 ∧
+      (SimSt.applyS cfg gB).2 = some e ∧ g.net.2 = (SimSt.applyS cfg gB).1.2 ∧
+      LedgerQ cfg gB.core.iter gB.net.2.rates gB.net.2.peak gB.net.2.evs gB.net.2.occLog) := by
+  obtain ⟨h0, g0⟩ := initG_inv (σ := SimSt.St K) hq heapQ_ok (net0 cfg.core early, SimSt.numOf (Sim.init cfg))
+  have hnf := SimSt.sim_noFail cfg hq cs
+  have hks := SimSt.schedS_keeps cfg sched (LoopInv cfg.core)
+  have hka := SimSt.applyS_keeps cfg (LoopInv cfg.core)
+  have hK := SimSt.ledger_keepsJ cfg hst cs sched
+  rcases runGM_last hq heapQ_ok hnf hks hka n 0 (SimSt.init cfg early) h0 g0
+      (loopInv_init cfg.core hst early) (Nat.zero_le _) g (some e) hrun with
+    ⟨_, e2⟩ | ⟨k, gm, t', hk, hrk, hIm, hGm, hNm, _, hb⟩
+  · cases e2
+  · obtain ⟨g1, h1, hit, _, _, _, _, hN1⟩ := eventsStageG_okH hq heapQ_ok hnf hIm hGm hNm
+    have hJ1 : SimSt.ledgerJ cfg g1 := by
+      obtain ⟨g', r, hr', _, hI', _⟩ := runGM_specJ hq heapQ_ok hnf hks hka hK k 0 (SimSt.init cfg early)
+        h0 g0 (loopInv_init cfg.core hst early) (SimSt.ledgerJ_init cfg early) (Nat.zero_le _)
+      have heq : (g', r) = (gm, none) := hr'.symm.trans hrk
+      simp only [Prod.mk.injEq] at heq
+      obtain ⟨e1, e2⟩ := heq
+      subst e1
+      exact hK.events g' g1 h1 (hI' e2).2
+    rcases bodyGM_err_cases h1 hb with
+      ⟨_, n1, hsc, hg⟩ | ⟨gB, n1, hso, hap, hg⟩ | ⟨gB, n1, n2, hso, hap, hpo, hg⟩
+    · have hn1 : n1 = g1.net := SimSt.schedS_err hsc
+      subst hn1
+      left
+      refine ⟨⟨_, by rw [hsc]⟩, ?_⟩
+      rw [hg]
+      exact hK.flags g1 (markInvoked g1.core) rfl hJ1
+    · right
+      have hn1 : n1.1 = gB.net.1 := by
+        have : (SimSt.applyS cfg gB).1.1 = gB.net.1 := rfl
+        rw [hap] at this
+        exact this
+      rw [hg]
+      exact ⟨gB, rfl, hn1.symm, by rw [hap], by rw [hap], SimSt.ledgerJ_schedOut cfg hst cs sched hso hJ1⟩
+    · exfalso
+      have hB1 : gB.net.1 = g1.net.1 := SimSt.schedOut_net1 hso
+      have hBc := hso.core
+      have hn1 : n1.1 = gB.net.1 := by
+        have : (SimSt.applyS cfg gB).1.1 = gB.net.1 := rfl
+        rw [hap] at this
+        exact this
+      have hP : LoopInv cfg.core gB.core.eventHist n1.1 := by
+        rw [hBc.2.1, hn1, hB1]
+        exact hN1
+      have := (hnf.post gB.core.eventHist gB.core.iter n1 hP).1
+      rw [hpo] at this
+      cases this
+
+end simabortenergy
+
 section simex
 local instance : HasExp ℚ := ⟨fun x => x⟩
 
@@ -225,7 +301,7 @@ example :
         = [[some "a"], [some "a"], [some "a"], [some "a"], [none]] := by
   decide +kernel
 
-/-- the hypothesis of `end_to_end_sim_abort` is satisfiable: the scheduler that fails at iteration 1.
+/-- the hypothesis of `end_to_end_sim_abort` / `end_to_end_sim_abort_energy` is satisfiable: the scheduler that fails at iteration 1.
     At the abort the queue is as the events of period 1 left it, `a` still holds the station (the hook
     has not run: no early departure counted), the iteration counter stands at the failing period and
     only period 0 has been charged -/
@@ -250,7 +326,11 @@ example :
         (·.delivered) = [7, 0, 0] ∧
     (SimSt.run (fun _ => 0) exSimCfg
       (fun v => if v.iter = 1 then .error .schedulerFailed else exSimSched v) 9 (SimSt.init exSimCfg true)).1.net.2.occLog
-        = [[some "a"]] := by
+        = [[some "a"]] ∧
+    -- … and the ledger of `end_to_end_sim_abort_energy` (case A) reads: 7 A · 1000 V / 1000 · 1 h = 7 kWh
+    (SimSt.run (fun _ => 0) exSimCfg
+      (fun v => if v.iter = 1 then .error .schedulerFailed else exSimSched v) 9 (SimSt.init exSimCfg true)).1.net.2.rates.rows
+        = [[7, 0, 0, 0, 0]] := by
   decide +kernel
 
 end simex
